@@ -14,6 +14,12 @@ import z3
 from .ty import BOOL, INT, STR, SV, T
 
 _uid = itertools.count()
+
+
+def parse_type_local(s):
+    from .ty import parse_type
+    return parse_type(s)
+
 SCALARISH = ('int', 'bool', 'str', 'u', 'set', 'dset', 'list', 'cnt')
 
 
@@ -32,6 +38,29 @@ class Ctx:
         self.axioms = []                         # closed global axioms (card), part of every query
 
     # ------------------------------------------------------------------ sorts
+    def declare_datatypes(self, groups):
+        """Mutually recursive algebraic datatypes (value trees). Same in both modes (they are never enumerated)."""
+        self.dt_info = getattr(self, 'dt_info', {})
+        for group in groups:
+            names = [g[0] for g in group]
+            if all(n in self._sorts for n in names):
+                continue
+            dts = {n: z3.Datatype(f'{n}!{self.uid}') for n in names}
+            for n, ctors in group:
+                for cname, flds in ctors:
+                    args = []
+                    for fn, ft in flds:
+                        args.append((fn, dts[ft] if ft in dts else self.sort(parse_type_local(ft))))
+                    dts[n].declare(cname, *args)
+            made = z3.CreateDatatypes(*[dts[n] for n in names])
+            for (n, ctors), srt in zip(group, made):
+                self._sorts[n] = srt
+                for i, (cname, flds) in enumerate(ctors):
+                    self.dt_info[cname] = ('ctor', n, srt.constructor(i), [ft for _, ft in flds])
+                    self.dt_info['is_' + cname] = ('rec', n, srt.recognizer(i), None)
+                    for j, (fn, ft) in enumerate(flds):
+                        self.dt_info[fn] = ('acc', n, srt.accessor(i, j), ft)
+
     def usort(self, name: str):
         if name in self._sorts:
             return self._sorts[name]
